@@ -7,12 +7,13 @@ import nonls
 sys.path.insert(0, os.path.join(os.path.dirname(os.path.abspath(__file__)), '..', 'C03'))
 import protocol
 import precond_smt
+import penalty
 
 
 def build(tier):
     prox = protocol.targets(['NV_C02'])
     return {
-        'targets': common.targets(['NV_C02']) + statefns.targets() + nonls.targets() + prox, 'vcs': precond_smt.vcs(),
+        'targets': common.targets(['NV_C02']) + statefns.targets() + nonls.targets() + penalty.targets() + prox, 'vcs': precond_smt.vcs() + penalty.vcs(),
         'decided': ['solver_t::done decision protocol; lsearch_t::get; do_minimize of gd / cgd-* / lbfgs / bfgs,dfp,sr1,hoshino,fletcher (17 solvers share these four bodies): status in {converged, max_iters, failed}; unless failed the returned state is valid (finite value and point); the reported (x, f, g) is one consistent evaluation; reported evaluation counts <= evaluations performed; the budget loop terminates and overshoots max_evals by at most one line search (<= 10*max_iterations evaluations, C07: CG_DESCENT alone may take 7*max_iterations+1)',
                     'contract refinement lemma: the C07 contract of lsearchk_t::get implies the contract the solvers rely on',
                     'solver_state_t::update_if_better (both overloads): isfinite(fx) && fx < m_fx <=> the triple (x, gx, fx) is stored (constraint values recomputed from it) and true is returned, otherwise the triple is unchanged; the best value never increases; both histories grow by exactly one and record a positive improvement exactly when the state was replaced (IEEE subtraction, not uninterpreted); value_test(patience) = its three documented cases for every history (loop contract, all indices in bounds); update_calls; valid() => finite value and point',
